@@ -71,6 +71,7 @@ package c28
 import (
 	"fmt"
 	"os"
+	"runtime/debug"
 	"sort"
 	"strconv"
 	"strings"
@@ -119,7 +120,7 @@ const (
 	defaultMs  = int64(60_000) // cache.go expireTime
 	scanMs     = int64(60_000) // cache.go scanTime
 	sigPurge   = "lifetime reverts to default after purge"
-	watchdogS  = 180
+	watchdogS  = 600
 	maxWorkers = 6
 )
 
@@ -367,11 +368,13 @@ type step struct {
 var theT *testing.T
 
 // runSeq executes the history in a bubble and returns the trace. It makes no
-// judgement. hung is set by the watchdog only.
-func runSeq(c Case) []step {
+// judgement. A Go panic raised by a cache operation on the history's goroutine
+// is caught inside the bubble (a panic leaving a bubble goroutine would end the
+// process and with it shrinking) and returned as text.
+func runSeq(c Case) (trace []step, panicked string) {
 	settings.SetDefault(defs.ServerMaxCacheSizeSetting, strconv.Itoa(c.Limit))
 	realNow := time.Now() // only used to place the bubble's epoch in the future of every real clock reading
-	trace := make([]step, len(c.Ops))
+	trace = make([]step, len(c.Ops))
 	var events []event
 
 	wd := time.AfterFunc(watchdogS*time.Second, func() {
@@ -396,6 +399,36 @@ func runSeq(c Case) []step {
 			events = events[:0]
 			return out
 		}
+		runOps := func() {
+			defer func() {
+				if p := recover(); p != nil {
+					panicked = fmt.Sprintf("panic: %v\n%s", p, debug.Stack())
+				}
+			}()
+			runHistory(c, trace, epoch, drain)
+		}
+		runOps()
+		// rule (c): leave nothing behind. Reset every class to the default
+		// lifetime (so that a tree in which the lifetime survives a purge starts
+		// the next case from the same state as one in which it does not), purge,
+		// and sleep one scan interval so that the sweepers see their cache gone
+		// and exit.
+		lisMu.Lock()
+		seqRec = nil
+		lisMu.Unlock()
+		for _, id := range seqClass {
+			_ = caches.SetExpiration(id, "60s")
+			caches.PurgeLocal(id)
+			caches.Purge(id) // either one suffices; OnPurge is nil
+		}
+		time.Sleep(time.Duration(scanMs+1000) * time.Millisecond)
+		synctest.Wait()
+	})
+	return trace, panicked
+}
+
+func runHistory(c Case, trace []step, epoch time.Time, drain func() []event) {
+	{
 		for i, op := range c.Ops {
 			st := &trace[i]
 			id := seqClass[op.C]
@@ -428,23 +461,25 @@ func runSeq(c Case) []step {
 			}
 			st.Events = drain()
 		}
-		// rule (c): leave nothing behind. Reset every class to the default
-		// lifetime (so that a tree in which the lifetime survives a purge starts
-		// the next case from the same state as one in which it does not), purge,
-		// and sleep one scan interval so that the sweepers see their cache gone
-		// and exit.
-		lisMu.Lock()
-		seqRec = nil
-		lisMu.Unlock()
-		for _, id := range seqClass {
-			_ = caches.SetExpiration(id, "60s")
-			caches.PurgeLocal(id)
-			caches.Purge(id) // either one suffices; OnPurge is nil
+	}
+}
+
+// egoFrame names the first ego frame below the panic in a stack dump.
+func egoFrame(stack string) string {
+	seen := false
+	for _, l := range strings.Split(stack, "\n") {
+		if strings.HasPrefix(l, "panic(") {
+			seen = true
+			continue
 		}
-		time.Sleep(time.Duration(scanMs+1000) * time.Millisecond)
-		synctest.Wait()
-	})
-	return trace
+		if seen && strings.HasPrefix(l, "github.com/tucats/ego/internal/") {
+			if i := strings.LastIndex(l, "("); i > 0 {
+				l = l[:i]
+			}
+			return strings.TrimPrefix(l, "github.com/tucats/ego/")
+		}
+	}
+	return "unknown"
 }
 
 // ---------------------------------------------------------------- model
@@ -788,7 +823,12 @@ func seqOracle(c Case) vkit.Outcome {
 			return out
 		}
 	}
-	trace := runSeq(c)
+	trace, panicked := runSeq(c)
+	if panicked != "" {
+		out.Labels = []string{"seq", "seq:panic"}
+		out.Fail = &vkit.Failure{Sig: "panic:" + egoFrame(panicked), Observed: clip(panicked, 4000) + "\nhistory: " + fmtOps(c.Ops, len(c.Ops)), Expected: "no panic"}
+		return out
+	}
 	prim := checkSeq(c, trace, false)
 	s := prim.st
 	if prim.fail != nil {
